@@ -1,0 +1,25 @@
+//go:build verif
+
+package verifhook
+
+import "sync/atomic"
+
+// Handler receives the name of the hook point and its arguments.
+type Handler func(name string, args ...interface{})
+
+var handler atomic.Value // of Handler
+
+// Set installs the process-wide handler (nil removes it).
+func Set(h Handler) {
+	if h == nil {
+		h = func(string, ...interface{}) {}
+	}
+	handler.Store(h)
+}
+
+// At calls the installed handler, if any.
+func At(name string, args ...interface{}) {
+	if h, ok := handler.Load().(Handler); ok && h != nil {
+		h(name, args...)
+	}
+}
